@@ -1,6 +1,8 @@
 package treesim
 
 import (
+	"context"
+	"sort"
 	"strings"
 
 	"github.com/anyproto/any-sync/commonspace/object/tree/objecttree"
@@ -182,6 +184,34 @@ func (w *world) orderCheck(rep *replica, when string) (stored []string) {
 	full := rep.fullSeq()
 	if !eqSeq(full, stored) {
 		w.r.Fail("stored-order-differs-from-rebuilt", "", "%s (%s): stored order and the order of the tree rebuilt in full from storage differ\n stored:  %s\n rebuilt: %s", rep.name, when, shorts(stored), shorts(full))
+	}
+	// the add-sequence views (changes stored after insert number k) are the full order restricted to them
+	var seqs []uint64
+	seen := map[uint64]bool{}
+	_ = rep.treeStorage().GetAfterAddSeq(ctxb, 0, func(_ context.Context, c objecttree.StorageChange) (bool, error) {
+		if !seen[c.AddSeq] {
+			seen[c.AddSeq] = true
+			seqs = append(seqs, c.AddSeq)
+		}
+		return true, nil
+	})
+	sort.Slice(seqs, func(i, j int) bool { return seqs[i] < seqs[j] })
+	cuts := []uint64{0}
+	if len(seqs) > 1 {
+		cuts = append(cuts, seqs[w.r.Src.Choose("addseq-cut", len(seqs))])
+	}
+	for _, k := range cuts {
+		var view []string
+		err := rep.treeStorage().GetAfterAddSeq(ctxb, k, func(_ context.Context, c objecttree.StorageChange) (bool, error) {
+			view = append(view, c.Id)
+			return true, nil
+		})
+		if err != nil {
+			w.r.Fail("iterate-failed", "addseq", "%s (%s): GetAfterAddSeq(%d): %v", rep.name, when, k, err)
+		}
+		if want := restrict(full, view); !eqSeq(want, view) {
+			w.r.Fail("addseq-view-order-differs", "", "%s (%s): the changes stored after insert number %d are presented as %s, the full order restricted to them is %s", rep.name, when, k, shorts(view), shorts(want))
+		}
 	}
 	live := rep.iterSeq()
 	if want := restrict(full, live); !eqSeq(want, live) || len(live) == 0 {
